@@ -4,6 +4,7 @@ import (
 	"bytes"
 	"encoding/json"
 	"fmt"
+	"os"
 	"sort"
 	"strings"
 
@@ -91,8 +92,18 @@ func (c rsCase) idForm(n string) string {
 	return nodeNS + n
 }
 
+// refPrefix is the prefix name the referenced context document uses for this case: the document is rewritten
+// for every case (same location, other term), so a stale copy of it cannot be used
+func (c rsCase) refPrefix() string {
+	return fmt.Sprintf("px%d", len(c.ID)*7+int(c.ID[len(c.ID)-1])%5)
+}
+
+var ctxFile string
+
 func (c rsCase) keyForm(p string) string {
 	switch c.Choice.Ctx {
+	case "prefixRef":
+		return c.refPrefix() + ":" + p
 	case "prefix":
 		return "ex:" + p
 	case "vocab":
@@ -245,18 +256,39 @@ func (c rsCase) render() string {
 		}
 	}
 	ctx := c.context()
+	var ctxValue any = ctx
+	if c.Choice.Ctx == "prefixRef" {
+		if ctxFile == "" {
+			f, err := os.CreateTemp("", "acvh-context-*.jsonld")
+			if err != nil {
+				panic(err)
+			}
+			ctxFile = f.Name()
+			f.Close()
+		}
+		inner := ordObj{{c.refPrefix(), exNS}}
+		if c.Choice.Base {
+			inner = append(inner, kv{"@base", nodeNS})
+		}
+		b, _ := json.Marshal(ordObj{{"@context", inner}})
+		if err := os.WriteFile(ctxFile, b, 0644); err != nil {
+			panic(err)
+		}
+		ctxValue = ctxFile // json-gold opens non-http references as plain paths
+		ctx = ordObj{{"ref", true}}
+	}
 	var doc any
 	if c.Choice.Wrapper == "graph" {
 		d := ordObj{}
 		if len(ctx) > 0 {
-			d = append(d, kv{"@context", ctx})
+			d = append(d, kv{"@context", ctxValue})
 		}
 		d = append(d, kv{"@graph", objs})
 		doc = d
 	} else {
 		if len(ctx) > 0 {
 			for i := range objs {
-				objs[i] = append(ordObj{{"@context", ctx}}, objs[i]...)
+				objs[i] = append(ordObj{{"@context", ctxValue}}, objs[i]...)
 			}
 		}
 		doc = objs
